@@ -408,10 +408,9 @@ class BaseSubscription:
             if query.ids is not None:
                 matched.add(event.id in query.ids)
             if query.authors is not None:
-                matched.add(event.pubkey in query.authors)
+                # the author, or the delegator (NIP-26)
                 has_delegation, match = event.has_tag("delegation", query.authors)
-                if match:
-                    matched.add(True)
+                matched.add(event.pubkey in query.authors or bool(match))
             if query.kinds is not None:
                 matched.add(event.kind in query.kinds)
             if query.since:
